@@ -688,6 +688,7 @@ class Sim:
         self.freeze = 0
         self.cur_event_seq = 0
         self.spawn_count = collections.Counter()
+        self.spawn_total = collections.Counter()
         self.sched_sem = threading.Semaphore(0)
         self.helpers = []
         self.rngs = {}
@@ -714,7 +715,7 @@ class Sim:
         self.storm_times = {}
         self.storm = None
         self.wall0 = real_time.time()
-        self.wall_cap = config.get('wall_cap', 60.0)
+        self.wall_cap = config.get('wall_cap', 150.0)
         self.scratch = scratch or tempfile.mkdtemp(prefix='supvsim-')
         self._own_scratch = scratch is None
         self.ev_digest = hashlib.sha256()
@@ -1026,6 +1027,13 @@ class Sim:
                 break
         if script is None:
             return {}
+        # crash-loop guard: a program that exits on its own and is restarted at once by Supervisor (autorestart, startsecs 0)
+        # would spawn thousands of children per run; after 120 spawns of one process the child behaves (stays up)
+        if not peek and 'seq' not in script:
+            self.spawn_total[(inst.nick, key)] += 1
+        if self.spawn_total[(inst.nick, key)] > 120 and ('exit_after' in script or 'exec_fail' in script):
+            self.probes['crash_loop_guard'] += 0 if peek else 1
+            return {k: v for k, v in script.items() if k not in ('exit_after', 'exit_code', 'exec_fail')}
         if 'seq' in script:
             n = self.spawn_count[(inst.nick, key)]
             seq = script['seq']
